@@ -36,6 +36,18 @@ pub fn qr_of(v: usize, seed: u64) -> QRCode {
         _ => { eprintln!("render scenario: could not build a version {v} symbol; using a blank one"); QRCode::default(17 + 4 * v) }
     }
 }
+/// A hand-made QR code object (public fields): valid side, arbitrary module values -- the renderers take any &QRCode
+pub fn synthetic(v: usize, kind: usize, seed: u64) -> QRCode {
+    use fast_qr::Module;
+    let n = 17 + 4 * v;
+    let mut q = QRCode::default(n);
+    let mut r = rng(seed, 300 + (v * 10 + kind) as u64);
+    for y in 0..n { for x in 0..n {
+        let dark = match kind { 0 => true, 1 => false, 2 => (x + y) % 2 == 0, 3 => y % 2 == 0, 4 => x == 0 || y == 0 || x == n - 1 || y == n - 1, _ => r.gen_range(0..3) == 0 };
+        q.data[y * n + x] = Module::data(dark);
+    } }
+    q
+}
 pub fn vals_of(qr: &QRCode) -> Vec<Vec<u32>> { pack_matrix(&qr_modules(qr), qr.size).0 }
 
 // ------------------------------------------------------------------ text (C16)
@@ -57,6 +69,11 @@ pub fn text(sink: &mut Sink, seed: u64, thorough: bool) {
             sink.emit(&text_event(id, &format!("text:{v}"), &qr));
         }
     }
+    for (i, v) in [1usize, 2, 6, 13, 40].into_iter().enumerate() { for kind in 0..6usize {
+        if !thorough && (i + kind) % 2 == 1 { continue; }
+        let id = sink.id();
+        sink.emit(&text_event(id, &format!("textsyn:{kind}"), &synthetic(v, kind, seed)));
+    } }
 }
 
 // ------------------------------------------------------------------ SVG (C12, C18)
@@ -238,6 +255,12 @@ pub fn svg(sink: &mut Sink, seed: u64, thorough: bool) {
             sink.emit(&svg_event(id, &format!("svgver:{v}:{s}"), &qr, &p));
         }
     }
+    // hand-made matrices: all dark, all light, checkerboard, stripes, border only, sparse random
+    for (i, v) in [1usize, 3, 9, 25].into_iter().enumerate() { for kind in 0..6usize {
+        if !thorough && (i + kind) % 2 == 1 { continue; }
+        let id = sink.id();
+        sink.emit(&svg_event(id, &format!("svgsyn:{kind}"), &synthetic(v, kind, seed), &[Call::Margin(kind), Call::Shape(kind % 6), Call::ShapeColor((kind + 2) % 6, COLORS[2].to_vec())]));
+    } }
     // image strings
     let qr = qr_of(3, seed);
     for (i, s) in image_pool().iter().enumerate() {
@@ -408,6 +431,12 @@ pub fn raster(sink: &mut Sink, seed: u64, thorough: bool) {
                 }
             }
         }
+    }
+    for kind in 0..6usize {
+        let q = synthetic(2, kind, seed);
+        let c = q.size as u32 + 4;
+        let id = sink.id();
+        sink.emit(&raster_event(id, &format!("rastersyn:{kind}"), &q, &[Call::Margin(2), Call::Shape(if kind < 3 { 0 } else { kind }), Call::FitWidth(5 * c)]));
     }
     // option programs: forwarding of every Builder method, order of fit_width / fit_height
     let qr = qr_of(2, seed);
